@@ -97,6 +97,26 @@ def main(argv):
                                 break
                     lines.append(f"getnode seed={seed} hash={mode} key={cps(key)} nodes={';'.join(cps(x) for x in nodes) or '-'}")
                     metas.append((case, "ok " + (cps(w) if w is not None else "NONE")))
+    # 1b. ties between nodes one of whose names is a prefix of the other (cache / cache-2, a socket path and its sibling, an address and its
+    #     scoped form): the greatest NAME wins, whatever follows the shared prefix and whatever the key is
+    families = [["cache", "cache-2", "cache-10"], ["/var/run/mc", "/var/run/mc-2", "/var/run/mc.sock"], ["db", "db+1", "db,2", "db-", "db.3"],
+                ["fe80::1", "fe80::1%eth0", "fe80::1:11211"], ["h", "h-", "h--", "h-k"], ["n", "n ", "n!", "n-1", "n0"]]
+    tie_keys = ["", "-", "0", "1", "2", "3", "7", "9", "k", "z", "!", " ", "-k", "~", "cache", "2-2"]
+    for mode in ("const", "two", "murmur"):
+        for fam in families:
+            for r in range(2, len(fam) + 1):
+                for nodes in itertools.combinations(fam, r):
+                    for key in tie_keys if mode != "murmur" else tie_keys[:4]:
+                        for order in (list(nodes), list(reversed(nodes))):
+                            w = get(order, key, mode, 0)
+                            case = {"hash": mode, "seed": 0, "nodes": order, "key": key, "winner": w}
+                            ctx.case((mode, 0, tuple(order), key))
+                            ctx.count("prefix-related node names")
+                            want = lexmax(ref_murmur, order, key, 0, hfs[mode])
+                            if w != want:
+                                ctx.violation("winner is not the (score, name) lexicographic maximum", dict(case, want=want), tags=["prefix-names"])
+                        lines.append(f"getnode seed=0 hash={mode} key={cps(key)} nodes={';'.join(cps(x) for x in nodes)}")
+                        metas.append((case, "ok " + cps(w)))
     # 2. histories: same resulting set => same placement; remove/add disruption
     for mode in hfs:
         for _ in range(400 if ctx.thorough else 80):
